@@ -14,6 +14,8 @@ LIB_DIRS = ["asm", "common", "core", "disasm", "fileio", "simulate", "table"]
 
 SAN = "-fsanitize=address,bounds-strict,integer-divide-by-zero -fno-sanitize-recover=all"
 
+SANREC = "-fsanitize=address,bounds-strict,integer-divide-by-zero -fsanitize-recover=address,bounds-strict,integer-divide-by-zero"
+
 FLAVOURS = {
     # the repo's own flags (read from config.mak when present)
     "rel": {"cflags": None, "ldflags": "-s"},
@@ -24,6 +26,11 @@ FLAVOURS = {
                   "ldflags": SAN},
     "asan_pat": {"cflags": "-O1 -g -fno-omit-frame-pointer %s -DREADLINE -w -ftrivial-auto-var-init=pattern" % SAN,
                  "ldflags": SAN},
+    # recover mode: a sanitizer report does not end the process, so a probe can attribute reports to single cases in bulk
+    "rec_zero": {"cflags": "-O1 -g -fno-omit-frame-pointer %s -DREADLINE -w -ftrivial-auto-var-init=zero" % SANREC,
+                 "ldflags": SANREC},
+    "rec_pat": {"cflags": "-O1 -g -fno-omit-frame-pointer %s -DREADLINE -w -ftrivial-auto-var-init=pattern" % SANREC,
+                "ldflags": SANREC},
 }
 
 
@@ -153,9 +160,13 @@ def ensure(flavour, hooks=True, jobs=None):
         lock.close()
 
 
-def probe(flavour, name, extra_flags="", extra_srcs=(), link_mains=()):
+def probe(flavour, name, extra_flags="", extra_srcs=(), link_mains=(), decoders=False):
     """Compile /verif/probe/<name>.cpp against the flavour's library; cached on probe source + lib key."""
     prod = ensure(flavour)
+    if decoders:
+        from engine import gen_decoders
+        inc, _ = gen_decoders.generate(prod["dir"])
+        extra_flags += " -I%s" % prod["dir"]
     src = os.path.join(VERIF, "probe", name + ".cpp")
     srcs = [src] + [os.path.join(VERIF, "probe", s) for s in extra_srcs]
     h = hashlib.sha256(prod["key"].encode())
